@@ -106,7 +106,7 @@ structure Node where
   table : List RouteEntry
   /-- keys of `Arp.local_ips`: the addresses this machine answers ARP requests for -/
   arpIps : List Addr
-deriving Repr
+deriving DecidableEq, Repr
 
 structure Topo where
   nodes : List Node
@@ -182,7 +182,7 @@ inductive Demuxed
   | dropped
   | app (port : Nat) (data : List UInt8)
   | routed (p : Option Pending)
-deriving Repr
+deriving DecidableEq, Repr
 
 /-- `Udp::demux` (well-formed UDP header assumed): exact (address, port) binding, then (0.0.0.0, port) -/
 def udpDemux (nd : Node) (pkt : Pkt) : Demuxed :=
